@@ -64,10 +64,30 @@ def _ref_ident(o):
     return tok(_ident(o))
 
 
-def _prop(p):
+def float_fields(v):
+    """sign, digits, exponent of Decimal(repr(v)).normalize(), recomputed from repr(v) by string operations"""
+    r = repr(float(v))
+    neg = r.startswith('-')
+    r = r.lstrip('+-')
+    mant, _, e = r.partition('e')
+    a, _, b = mant.partition('.')
+    digits = (a + b).lstrip('0')
+    exp = (int(e) if e else 0) - len(b)
+    if digits == '':
+        return neg, '0', 0
+    while len(digits) > 1 and digits.endswith('0'):
+        digits = digits[:-1]
+        exp += 1
+    return neg, digits, exp
+
+
+def _prop(p, allow_float=False):
     out = [tok(p['identifier'])]
     out.append(tok(p['original_identifier']) if 'original_identifier' in p else '~')
     v = p['value']
+    if allow_float and isinstance(v, float) and math.isfinite(v):
+        neg, digits, exp = float_fields(v)
+        return out + ['n', '1' if neg else '0', digits, str(exp)]
     if isinstance(v, str):
         out += ['s', tok(v)]
     elif isinstance(v, bool):
@@ -95,8 +115,13 @@ def _index(pins, p):
     raise Inexpressible('pin not among the pins of its port')
 
 
+def _is_float(p):
+    return isinstance(p['value'], float) and math.isfinite(p['value'])
+
+
 def value_tokens(netlist):
-    """the nvfile value of a composed netlist in the wire format of `emitfile`"""
+    """the float-property parameter and the nvfile value of a composed netlist in the wire format of `emitfile`"""
+    floats = []
     out = _name_ident(netlist)
     libs = list(netlist.libraries)
     out.append(str(len(libs)))
@@ -122,6 +147,12 @@ def value_tokens(netlist):
                         raise Inexpressible('referenced definition outside a library')
                     out += [_ref_ident(c.reference.library), _ref_ident(c.reference)]
                 props = c.data['EDIF.properties'] if 'EDIF.properties' in c.data else []
+                if any(_is_float(p) for p in props):
+                    fx = [tok(_ident(lib)), tok(_ident(d)), tok(_ident(c)), str(len(props))]
+                    for p in props:
+                        fx += _prop(p, allow_float=True)
+                    floats.append(fx)
+                    props = [p for p in props if not _is_float(p)]
                 out.append(str(len(props)))
                 for p in props:
                     out += _prop(p)
@@ -144,7 +175,11 @@ def value_tokens(netlist):
         if top.reference is None or top.reference.library is None:
             raise Inexpressible('top instance without reference')
         out += [tok(_ident(top.reference.library)), tok(_ident(top.reference))]
-    return out
+    fl = [str(len(floats))]
+    for fx in floats:
+        fl += fx
+    STATS['values with float properties (parameter fl)'] += 1 if floats else 0
+    return fl + out
 
 
 def prog_tokens(netlist):
